@@ -103,13 +103,30 @@ func (fr *Frame) paramSVs() map[string]SV {
 	return m
 }
 
+// localByName resolves a local of the frame by the name the contract uses for it. An alias (rebind.go) may carry an
+// offset: "i-1" stands for the hidden index of a range loop that became an index loop, "rangeindex+1" for the reverse.
 func (fr *Frame) localByName(st *State, name string) (SV, bool) {
-	r := fr.run
-	if fr.fn == r.top {
-		if a, ok := r.localAlias[name]; ok {
+	off := 0
+	if fr.fn == fr.run.top {
+		if a, ok := fr.run.localAlias[name]; ok {
+			switch {
+			case strings.HasSuffix(a, "-1"):
+				off, a = -1, strings.TrimSuffix(a, "-1")
+			case strings.HasSuffix(a, "+1"):
+				off, a = 1, strings.TrimSuffix(a, "+1")
+			}
 			name = a
 		}
 	}
+	sv, ok := fr.localByName0(st, name)
+	if ok && off != 0 {
+		sv.t = app("Int", "+", sv.t, intLit(int64(off)))
+	}
+	return sv, ok
+}
+
+func (fr *Frame) localByName0(st *State, name string) (SV, bool) {
+	r := fr.run
 	var found *ssa.Alloc
 	for _, a := range fr.fn.Locals {
 		if a.Comment == name {
